@@ -354,7 +354,19 @@ class Walker:
                 left = right
             return parts[0] if len(parts) == 1 else ('bool', 'and', tuple(parts))
         if isinstance(node, ast.BoolOp):
-            return ('bool', 'and' if isinstance(node.op, ast.And) else 'or', tuple(self.sym(v, st) for v in node.values))
+            vals = tuple(self.sym(v, st) for v in node.values)
+            is_and = isinstance(node.op, ast.And)
+            # short-circuit folding of constant operands: `False and x` is False, `True and x` is x (same for or)
+            out = []
+            for i_, v in enumerate(vals):
+                if is_const(v) and i_ < len(vals) - 1:
+                    if bool(v[1]) != is_and:
+                        return v               # decides the whole expression
+                    continue                   # neutral element: skipped
+                out.append(v)
+            if len(out) == 1:
+                return out[0]
+            return ('bool', 'and' if is_and else 'or', tuple(out))
         if isinstance(node, (ast.List, ast.Tuple, ast.Set)):
             kind = {ast.List: 'list', ast.Tuple: 'tuple', ast.Set: 'set'}[type(node)]
             elts = tuple(('star', self.sym(e.value, st)) if isinstance(e, ast.Starred) else self.sym(e, st) for e in node.elts)
@@ -545,7 +557,7 @@ class Walker:
             finally:
                 self.n_paths = saved
             paths = list(done) + list(live)
-            if not paths or len(paths) > 8:
+            if not paths or len(paths) > 48:
                 return None
             vals = []
             for p in paths:
